@@ -280,3 +280,17 @@ def load_all():
     for m in sorted(pkgutil.iter_modules(pkg.__path__), key=lambda m: m.name):
         importlib.import_module("contracts." + m.name)
     return REGISTRY
+
+
+def assume_library(fobj, name, result=None):
+    """An external (non-repository) function treated as an uninterpreted, traced dependency."""
+    from . import builtins_model
+    from .values import SOpaque
+
+    def handler(I, args, kwargs, node):
+        r = result(I, args) if result else SOpaque(name + "-result")
+        I.trace.append((name, {"args": list(args), "kwargs": dict(kwargs), "__result__": r}))
+        return r
+
+    builtins_model.LIB[fobj] = handler
+    return handler
